@@ -53,6 +53,7 @@ type Op struct {
 	File  int    `json:"file"`
 	Route string `json:"route"`
 	Val   int    `json:"val"`
+	NS    string `json:"ns"`
 }
 
 // hot-reload case: a SCRIPT handler function (one shared AST, as a registered route has) is served several times by
@@ -103,6 +104,7 @@ type world struct {
 	all    []*runtime.TempVM // every TempVM a request ever ran on
 	hot    *ohttp.HotHandler
 	hotCtx data.Context
+	nfn    int          // counter for the helper functions of route "infunc"
 	thrown data.Control // last control handed to VM.ThrowControl (Program.GetValue reports throws there)
 }
 
@@ -111,6 +113,10 @@ func srcID(w *world, from data.From) int {
 		return -3
 	}
 	s := filepath.Base(from.GetSource())
+	// code declared by eval() carries the source "<file>(<line>) : eval()'d code" of the file that called eval
+	if i := strings.Index(s, ".php("); i >= 0 && strings.HasSuffix(s, "eval()'d code") {
+		s = s[:i+4]
+	}
 	if id, ok := w.cpfile[s]; ok && strings.HasPrefix(from.GetSource(), w.dir) {
 		return id
 	}
@@ -207,6 +213,24 @@ func (w *world) parserFor(i int) *parser.Parser {
 	return p
 }
 
+// declSrc: the declaration of (kind, name); a name with a namespace prefix is declared by its short name after a
+// `namespace NS;` line (only meaningful at the top of a file / parsed string)
+func declSrc(kind, name string) string {
+	ns := ""
+	if i := strings.LastIndex(name, "\\"); i > 0 {
+		ns = "namespace " + name[:i] + ";\n"
+		name = name[i+1:]
+	}
+	switch kind {
+	case "c":
+		return ns + "class " + name + " {}"
+	case "i":
+		return ns + "interface " + name + " {}"
+	default:
+		return ns + "function " + name + "() { return 1; }"
+	}
+}
+
 func (w *world) doOp(o Op) (st Step) {
 	st.D = -1
 	defer func() {
@@ -259,15 +283,7 @@ func (w *world) doOp(o Op) (st Step) {
 		file := fmt.Sprintf("d%d.php", o.File)
 		if o.Route == "parsefile" {
 			// the template-rendering path ($w->view): VM.ParseFile / TempVM.ParseFile on a file that declares something
-			var decl string
-			switch o.Kind {
-			case "c":
-				decl = "class " + o.Name + " {}"
-			case "i":
-				decl = "interface " + o.Name + " {}"
-			default:
-				decl = "function " + o.Name + "() { return 1; }"
-			}
+			decl := declSrc(o.Kind, o.Name)
 			// one template directory per history: the same file id is the same path (same-file re-declaration)
 			if w.tpl == "" {
 				tdir, err := os.MkdirTemp("", "c12tpl-")
@@ -289,16 +305,54 @@ func (w *world) doOp(o Op) (st Step) {
 			}
 			return
 		}
-		if o.Route == "parse" {
+		if o.Route == "eval" || o.Route == "include" || o.Route == "require_once" || o.Route == "infunc" || o.Route == "cond" {
+			// "define via a script statement": a script run on VM v whose statement declares the thing -- eval() of a
+			// declaration, include / require_once of a file that declares it, a declaration inside a function body
+			// (the function is then called) or inside a conditional block
+			decl := declSrc(o.Kind, o.Name)
 			var src string
-			switch o.Kind {
-			case "c":
-				src = "class " + o.Name + " {}"
-			case "i":
-				src = "interface " + o.Name + " {}"
+			switch o.Route {
+			case "eval":
+				src = "eval(" + strconv.Quote(decl) + ");"
+			case "include", "require_once":
+				if w.tpl == "" {
+					tdir, err := os.MkdirTemp("", "c12tpl-")
+					if err != nil {
+						st.R = 2
+						return
+					}
+					w.tpl, _ = filepath.EvalSymlinks(tdir)
+				}
+				path := filepath.Join(w.tpl, file)
+				os.WriteFile(path, []byte("<?php\n"+decl+"\n"), 0o644)
+				file = "script.zy"
+				src = o.Route + " " + strconv.Quote(path) + ";"
+			case "infunc":
+				w.nfn++
+				src = fmt.Sprintf("function c12mk%d() { %s return 1; }\nc12mk%d();", w.nfn, decl, w.nfn)
 			default:
-				src = "function " + o.Name + "() { return 1; }"
+				src = "if (1 == 1) { " + decl + " }"
 			}
+			p := w.parserFor(o.VM)
+			prog, acl := p.ParseString(src, file)
+			if acl != nil {
+				st.R = 1
+				st.Msg = "parse: " + acl.AsString()
+				return
+			}
+			ctx := v.CreateContext(p.GetVariables())
+			w.thrown = nil
+			if _, ctl := prog.GetValue(ctx); ctl != nil {
+				st.R = 1
+				st.Msg = ctl.AsString()
+			} else if w.thrown != nil {
+				st.R = 1
+				st.Msg = w.thrown.AsString()
+			}
+			return
+		}
+		if o.Route == "parse" {
+			src := declSrc(o.Kind, o.Name)
 			p := w.parserFor(o.VM)
 			prog, acl := p.ParseString(src, file)
 			if acl != nil {
@@ -391,6 +445,38 @@ func (w *world) doOp(o Op) (st Step) {
 		_, ctl := prog.GetValue(ctx)
 		if ctl == nil && w.thrown == nil && sb.String() == "1" {
 			st.D = 1
+		}
+		return
+	case "newshort":
+		// script level, run on VM v: `namespace NS; $o = new Short(); echo get_class($o);` -- the short name is resolved by
+		// the parser bound to v; D = the definition of the class of the object created (-1: the script failed)
+		src := "namespace " + o.NS + ";\n$o = new " + o.Name + "(); echo get_class($o);"
+		p := w.parserFor(o.VM)
+		var sb strings.Builder
+		old := data.WriteOutput
+		data.WriteOutput = func(x string) { sb.WriteString(x) }
+		defer func() { data.WriteOutput = old }()
+		st.R = 5
+		st.D = -1
+		prog, acl := p.ParseString(src, "script.zy")
+		if acl != nil {
+			st.Msg = "parse: " + acl.AsString()
+			return
+		}
+		ctx := v.CreateContext(p.GetVariables())
+		w.thrown = nil
+		_, ctl := prog.GetValue(ctx)
+		if ctl == nil && w.thrown == nil && sb.String() != "" {
+			st.Out = sb.String()
+			if c, ok := v.GetClass(sb.String()); ok {
+				st.D = srcID(w, c.GetFrom())
+			} else {
+				st.D = -8
+			}
+		} else if ctl != nil {
+			st.Msg = ctl.AsString()
+		} else if w.thrown != nil {
+			st.Msg = w.thrown.AsString()
 		}
 		return
 	case "const":
